@@ -585,6 +585,26 @@ async fn exec_op(
                 },
             }
         }
+        AppOp::BadSubscribe { unsub } => {
+            let long = ByteString::from("y".repeat(70_000));
+            if *unsub {
+                match sink.unsubscribe().topic_filter(long).send().await {
+                    Ok(_) => OpResult::Ok(AckInfo::none("unsuback")),
+                    Err(e) => OpResult::Err(err_str(&e)),
+                }
+            } else {
+                let opts = codec::SubscriptionOptions {
+                    qos: codec::QoS::AtLeastOnce,
+                    no_local: false,
+                    retain_as_published: false,
+                    retain_handling: codec::RetainHandling::AtSubscribe,
+                };
+                match sink.subscribe(None).topic_filter(long, opts).send().await {
+                    Ok(_) => OpResult::Ok(AckInfo::none("suback")),
+                    Err(e) => OpResult::Err(err_str(&e)),
+                }
+            }
+        }
         AppOp::Close => {
             sink.close();
             OpResult::Ok(AckInfo::none("close"))
